@@ -174,21 +174,21 @@ def dec(enf, probe):
 
 def layer_defs(sc):
     """Every (name, printed check) that some layer of the old or new policy legitimately contributes."""
-    from oslo_policy import _parser
+    P = env.printed
     defs = set()
     for ver in ('old', 'new'):
         for f, c in sc[ver].items():
             if c:
                 for k, v in c.items():
-                    defs.add((k, str(_parser.parse_rule(v))))
+                    defs.add((k, P(v)))
     for n, cs, dep in sc['defaults']:
-        defs.add((n, str(_parser.parse_rule(cs))))
+        defs.add((n, P(cs)))
         if dep:
-            defs.add((n, '(%s or %s)' % (str(_parser.parse_rule(cs)), str(_parser.parse_rule(dep[1])))))
+            defs.add((n, '(%s or %s)' % (P(cs), P(dep[1]))))
             for ver in ('old', 'new'):
                 for f, c in sc[ver].items():
                     if c and dep[0] in c:
-                        defs.add((n, str(_parser.parse_rule(c[dep[0]]))))      # old-name override carried to the new name
+                        defs.add((n, P(c[dep[0]])))      # old-name override carried to the new name
     return defs
 
 
@@ -289,8 +289,7 @@ def check_plan(ctx, case):
         dep_names = {n for n, cs, dep in sc['defaults'] if dep}
         differing = {k.split('/')[0] for k in ex['new'] if ex['settled'][k] != ex['new'][k]}
         explained = all(e in defs for e in ex['sig_settled'])
-        from oslo_policy import _parser
-        plain_defaults = {n: str(_parser.parse_rule(cs)) for n, cs, dep in sc['defaults'] if not dep}
+        plain_defaults = {n: env.printed(cs) for n, cs, dep in sc['defaults'] if not dep}
         settled_defs = dict(ex['sig_settled'])
         if differing and differing <= dep_names and explained:
             key = 'stale-deprecated-merge-after-race'
